@@ -40,7 +40,7 @@ RULE = ('directed corpus (every whole-minute offset -23:59..+23:59, sub-minute o
         'TimeFixture). One monitored execution = one call of a function under test with its oracle; distinct by '
         '(kind, fields, tz spec, form, seconds, delta, function, via); all are non-trivial except normalize_time/'
         'parse_isotime/marshalling of a naive value with zero microseconds')
-REQUIRED_CLAUSES = ['process-timezone-not-utc', 'comparison-keyword-call', 'normalize-naive-unchanged', 'normalize-aware-exact', 'normalize-unrepresentable',
+REQUIRED_CLAUSES = ['override-utcnow-with_timezone', 'process-timezone-not-utc', 'comparison-keyword-call', 'normalize-naive-unchanged', 'normalize-aware-exact', 'normalize-unrepresentable',
                     'normalize-range-edge-representable',
                     'parse-isotime-inverts-isoformat', 'marshall-roundtrip', 'marshall-now-under-override',
                     'leap-second-capped', 'override-utcnow', 'override-utcnow_ts',
@@ -458,6 +458,18 @@ def _check_clock_reading(ctx, case, tu, want_us, step):
             ctx.fail('override-utcnow' if step == 'start' else 'advance-exact', case,
                      {'step': step, 'got': got, 'exc': exc, 'want': want})
             return False
+    # with_timezone=True under an override: still that instant - the naive override itself, or an aware datetime that
+    # denotes the same UTC instant (never one shifted by the process's local offset)
+    got, exc = _call(tu.utcnow, with_timezone=True) if (want_us // 7) % 2 else _call(tu.utcnow, True)
+    ctx.clause('override-utcnow-with_timezone')
+    ok = exc is None and isinstance(got, dt.datetime)
+    if ok and got.tzinfo is None:
+        ok = fields_of(got) == want
+    elif ok:
+        off = got.utcoffset()
+        ok = off is not None and fields_of((got - off).replace(tzinfo=None)) == want
+    if not ok:
+        ctx.fail('override-utcnow-with_timezone', case, {'step': step, 'got': got, 'exc': exc, 'want': want})
     rel = want_us - EPOCH_US
     got, exc = _call(tu.utcnow_ts)
     ctx.clause('override-utcnow_ts')
